@@ -128,7 +128,7 @@ fn add_direct_body<const N: usize, const NI: usize, const NO: usize>(maxch: usiz
         g.n_in[K - 1] = n_in as u16;
         g.indirect[K - 1] = false;
         g.eb[K - 1] = n0;
-        assert!(inv_direct(&q, &g), "C01: representation invariant broken by add()");
+        assert!(inv_direct(&q, &g), "C01/C03/C04: representation invariant broken by add()");
     }
     // recycled free list (not the identity), index wrap, mixed directions, another chain outstanding
     // recycled free list (not the identity), index wrap, another chain outstanding
@@ -227,7 +227,7 @@ fn pop_direct_body<const N: usize, const NI: usize, const NO: usize>(maxch: usiz
             i += 1;
         }
         g.cnt[0] = 0;
-        assert!(inv_direct(&q, &g), "C03: representation invariant broken by pop_used()");
+        assert!(inv_direct(&q, &g), "C01/C03/C04: representation invariant broken by pop_used()");
     }
     // index wrap; completion of a multi-descriptor chain while another chain is outstanding and also completed
     kani::cover!(r.is_ok() && lu == 0xffff && (N < 4 || (nch == 2 && m == 2)));
@@ -356,7 +356,7 @@ fn add_indirect_body<const N: usize, const NI: usize, const NO: usize>(maxch: us
         g.n_in[K - 1] = n_in as u16;
         g.indirect[K - 1] = n > 1;
         g.eb[K - 1] = n0;
-        assert!(inv_indirect(&q, &g, &tbl), "C01: representation invariant broken by add()");
+        assert!(inv_indirect(&q, &g, &tbl), "C01/C03/C04: representation invariant broken by add()");
     }
     kani::cover!(n == 0 || n > N || (r.is_ok() && p0.free_head == (N - 1) as u16 && p0.avail_idx == 0xffff && (N < 4 || g.cnt[0] > 0)));
     // a full queue needs N outstanding chains; the ghost tracks K-1 = 2 before the step, so QueueFull is reachable for N <= 2
@@ -452,7 +452,7 @@ fn pop_indirect_body<const N: usize, const NI: usize, const NO: usize>(maxch: us
         }
         g.cnt[0] = 0;
         tbl[0] = None;
-        assert!(inv_indirect(&q, &g, &tbl), "C03: representation invariant broken by pop_used()");
+        assert!(inv_indirect(&q, &g, &tbl), "C01/C03/C04: representation invariant broken by pop_used()");
     }
     kani::cover!(r.is_ok() && lu == 0xffff && (N < 4 || (nch == 2 && m == 2)));
     kani::cover!(r == Err(Error::WrongToken) && token == g.head[0]);
